@@ -42,6 +42,9 @@ pub enum GitOp {
     CpShow,
     CpDelete,
     OutDelete,
+    /// `out delete --all` while every removal below <out>/tracking fails with EPERM (an immutable file, a read-only
+    /// bind mount): failing loudly is fine; saying "done" while the checkpoint is still there is not
+    OutDeleteFaulty,
     /// analyze --changes [--begin #n] [--end #n]
     Analyze { begin: Option<usize>, end: Option<usize> },
     /// run one command for the changed targets
@@ -177,7 +180,9 @@ impl RGit {
             },
             GitOp::Bulk { dir, n, tag } => {
                 for i in 0..*n {
-                    let c = self.fresh();
+                    // tags from 20000 on: every file of the bulk is empty (one content, one checksum: a pending set
+                    // that compresses far better than one of distinct files)
+                    let c = if *tag >= 20000 { String::new() } else { self.fresh() };
                     self.wt.insert(bulk_name(dir, *tag, i), c);
                 }
             }
